@@ -19,7 +19,7 @@ META = {
               "immediate constants symbolic",
     "outside": ["programs with absolute references at bases where an address exceeds 0o177777 (the assembler rejects '.word L' >= 2^16)",
                 "three bases at once (the law is binary; pairs are decided for all values)"],
-    "structure": "10 fixed programs + seeded random programs (quick 30, thorough 400)",
+    "structure": ".link at the start or at the end of the source (base unknown while compiling); 13 fixed programs + seeded random programs (quick 30, thorough 400)",
     "stubs": [],
 }
 
@@ -62,6 +62,10 @@ FIXED = [
     ("X1 = L1 + 2\nL0: .word X1\nL1: mov #X1, X1\n", ["a", "f", "a", "f"]),
     ("L0: .word D\nD = L1 - L0\nL1: .word L1 - D\n", ["f", "a"]),
     ("L0: mov pc, r0\nadd #L1-., r0\nL1: .word 0\n", ["f", "f", "f", "f"]),
+    # forward aliases: a symbol bound to a label defined further down, used in differences (coefficient -1 of the base)
+    ("entry = L1\nL0: mov #L2-entry, r0\nL1: nop\nL2: .word entry, L2-entry\n", ["f", "f", "f", "a", "f"]),
+    ("fin = L2\nstart = L0\nL0: mov #fin-start, L1\nL1: .word fin, start-fin\nL2:\n", ["f", "f", "f", "a", "f"]),
+    ("L0: clr tgt\nsub #tgt-L0, r1\ntgt = L1\n.word 0\nL1: .word tgt\n", ["f", "f", "f", "f", "f", "a"]),
 ]
 
 
@@ -80,8 +84,9 @@ def h_reloc(params, vals, ctx):
         require(-65536 < vals["X"] < 65536)
     v1 = {"B": b1, **({"X": vals["X"]} if "X" in vals else {})}
     v2 = {"B": b2, **({"X": vals["X"]} if "X" in vals else {})}
-    o1 = assemble([("a.mac", ".link {B}\n" + prog)], v1, route=ctx.route)
-    o2 = assemble([("a.mac", ".link {B}\n" + prog)], v2, route=ctx.route)
+    text = (".link {B}\n" + prog) if params.get("link_pos", "start") == "start" else (prog + ".link {B}\n")
+    o1 = assemble([("a.mac", text)], v1, route=ctx.route)
+    o2 = assemble([("a.mac", text)], v2, route=ctx.route)
     ctx.observe_outcome(o1)
     ctx.observe_outcome(o2)
     ctx.reach(o1.status == "ok" and o2.status == "ok")
@@ -117,10 +122,11 @@ def obligations(tier, seed):
 
     for i, (prog, kinds) in enumerate(FIXED):
         add(f"fixed/{i}", prog, kinds)
+        add(f"fixed-link-at-end/{i}", prog, kinds, link_pos="end")
     n = 400 if tier == "thorough" else 30
     for i in range(n):
         prog, kinds = make_program(rnd, rnd.randint(3, 8))
-        add(f"random/{i}", prog, kinds)
+        add(f"random/{i}", prog, kinds, link_pos="end" if i % 3 == 2 else "start")
     for i in range(60 if tier == "thorough" else 8):
         prog, kinds = make_program(rnd, rnd.randint(3, 8), pic=True)
         add(f"pic-wrap/{i}", prog, kinds, wrap=True)
